@@ -83,6 +83,18 @@ Fixpoint loopM {S A R : Type} (f : S -> A -> rs (ctrl S R)) (l : list A) (s : S)
                                       end)
   end.
 
+(** [loop { .. }] left by `break` ([Stop]) or `return` ([Break]), on fuel: what a `while let` becomes *)
+Fixpoint loopWhile {S R : Type} (fuel : nat) (step : S -> rs (ctrl S R)) (s : S) : rs (ctrl S R) :=
+  match fuel with
+  | O => Panic
+  | Datatypes.S f =>
+      bind (step s) (fun r => match r with
+                              | Next s' => loopWhile f step s'
+                              | Stop s' => Ret (Stop s')
+                              | Break v => Ret (Break v)
+                              end)
+  end.
+
 (** [v[i]] on a vector: panics when out of range *)
 Definition vec_index {A} (v : list A) (i : Z) : rs A :=
   if (0 <=? i) then match nth_error v (Z.to_nat i) with Some x => Ret x | None => Panic end else Panic.
